@@ -255,10 +255,15 @@ type c12Backlog struct {
 	gap    int64   // ms between consecutive publishes
 	W      int64   // ms waited after the last publish
 	mode   int     // 1 offline then reconnect, 2 window full
+	redis  bool    // redis persistence backend (over the in-process RESP server) instead of memory
 }
 
 func (k c12Backlog) String() string {
-	return fmt.Sprintf("backlog sub-v%d M=%d E=%v gap=%dms W=%dms mode=%s", k.subVer, k.M, k.Es, k.gap, k.W, c12Modes[k.mode])
+	be := "mem"
+	if k.redis {
+		be = "redis"
+	}
+	return fmt.Sprintf("backlog[%s] sub-v%d M=%d E=%v gap=%dms W=%dms mode=%s", be, k.subVer, k.M, k.Es, k.gap, k.W, c12Modes[k.mode])
 }
 
 func c12Life(E, M int64) int64 {
@@ -276,6 +281,11 @@ func (k c12Backlog) decidable() bool {
 			if d < 300 && d > -300 {
 				return false
 			}
+			// the redis queue stores deadlines as whole Unix seconds (truncated): a message may
+			// expire up to a second early there, which the statement does not exclude
+			if k.redis && d < 300 && d > -1300 {
+				return false
+			}
 		}
 	}
 	return true
@@ -283,12 +293,23 @@ func (k c12Backlog) decidable() bool {
 
 func c12RunBacklog(c *explore.Ctx, k c12Backlog) {
 	cas := func() any {
-		return map[string]any{"case": k.String(), "backlog": true, "sv": k.subVer, "M": k.M, "Es": k.Es, "gap": k.gap, "Wms": k.W, "mode": k.mode}
+		return map[string]any{"case": k.String(), "backlog": true, "sv": k.subVer, "M": k.M, "Es": k.Es, "gap": k.gap, "Wms": k.W, "mode": k.mode, "redis": k.redis}
 	}
 	c.Count("executions", 1)
 	c.Count("states", 1)
+	var rd *harness.Respd
+	db := 0
+	if k.redis {
+		if rd, db = c09DB(c, nil); rd == nil {
+			return
+		}
+		defer rd.DropDB(db)
+	}
 	execBody(c, "C12", cas, func() {
 		cfg := harness.DefaultConfig()
+		if k.redis {
+			cfg = c09Config(rd.Addr(), db)
+		}
 		cfg.MQTT.MessageExpiry = time.Duration(k.M) * time.Second
 		w := harness.NewWorld(cfg, server.Hooks{})
 		if w.InitErr != nil {
@@ -492,6 +513,12 @@ func c12Backlogs(c *explore.Ctx) []c12Backlog {
 							if k.decidable() {
 								out = append(out, k)
 							}
+							if sv == refmqtt.V5 && (len(es) <= 2 || !c.Quick()) {
+								k.redis = true
+								if k.decidable() {
+									out = append(out, k)
+								}
+							}
 						}
 					}
 				}
@@ -503,7 +530,7 @@ func c12Backlogs(c *explore.Ctx) []c12Backlog {
 
 func runC12(c *explore.Ctx) {
 	c.Level = "model_checking"
-	c.Rule = "E2 (virtual clock): the full grid publisher version x subscriber version x Message Expiry Interval {absent,2,5,100} x configured maximum {none,3s,10s} x waiting mode {online, offline then reconnect, in-flight window full, offline then delivered-unacknowledged then cut and resumed again (the DUP retransmission must carry a value between original minus everything waited and the value of the first transmission)} x waiting time {0, 0.6s, 1.4s, L-1, L-0.6s, L-0.4s, L+0.4s, L+1, L+30} (L = lifetime) x QoS, each on a fresh in-process broker: after the wait the message must be delivered exactly once (W < L) with Message Expiry Interval = original - whole seconds waited (a fraction may count down or up, never to 0), or not delivered and reported dropped as expired exactly once (W > L). Backlog: every sequence of 2..3 (thorough 4) messages over Message Expiry Interval {absent,2,5,100} published 0 / 0.7 s apart to an offline subscriber (v5, v3.1.1) or behind a full in-flight window, configured maximum {none,3s}, released after {0.6,2.6,3.9,5.6,31}s (cases with a message within 0.3 s of its deadline are not generated): exactly the live messages arrive, in order, each with its own remaining lifetime, and every expired one is reported dropped exactly once. states = grid points."
+	c.Rule = "E2 (virtual clock): the full grid publisher version x subscriber version x Message Expiry Interval {absent,2,5,100} x configured maximum {none,3s,10s} x waiting mode {online, offline then reconnect, in-flight window full, offline then delivered-unacknowledged then cut and resumed again (the DUP retransmission must carry a value between original minus everything waited and the value of the first transmission)} x waiting time {0, 0.6s, 1.4s, L-1, L-0.6s, L-0.4s, L+0.4s, L+1, L+30} (L = lifetime) x QoS, each on a fresh in-process broker: after the wait the message must be delivered exactly once (W < L) with Message Expiry Interval = original - whole seconds waited (a fraction may count down or up, never to 0), or not delivered and reported dropped as expired exactly once (W > L). Backlog: every sequence of 2..3 (thorough 4) messages over Message Expiry Interval {absent,2,5,100} published 0 / 0.7 s apart to an offline subscriber (v5, v3.1.1) or behind a full in-flight window, configured maximum {none,3s}, released after {0.6,2.6,3.9,5.6,31}s, on the memory backend and (v5 subscriber; quick: sequences of 2) on the redis backend (cases with a message within 0.3 s of its deadline are not generated): exactly the live messages arrive, in order, each with its own remaining lifetime, and every expired one is reported dropped exactly once. states = grid points."
 	c.Trusted = []string{"vsched virtual clock", "refmqtt codec"}
 	c.Assumptions = []string{"for E above the configured maximum both E-W and M-W are accepted as forwarded value", "W == L (the boundary instant) is not generated"}
 	if rc := replayCase(c); rc != nil {
@@ -512,7 +539,7 @@ func runC12(c *explore.Ctx) {
 			for _, e := range rc["Es"].([]any) {
 				es = append(es, int64(e.(float64)))
 			}
-			c12RunBacklog(c, c12Backlog{byte(rc["sv"].(float64)), int64(rc["M"].(float64)), es, int64(rc["gap"].(float64)), int64(rc["Wms"].(float64)), int(rc["mode"].(float64))})
+			c12RunBacklog(c, c12Backlog{byte(rc["sv"].(float64)), int64(rc["M"].(float64)), es, int64(rc["gap"].(float64)), int64(rc["Wms"].(float64)), int(rc["mode"].(float64)), rc["redis"] == true})
 			return
 		}
 		c12Run(c, c12Case{byte(rc["pv"].(float64)), byte(rc["sv"].(float64)), int64(rc["E"].(float64)), int64(rc["M"].(float64)), int(rc["mode"].(float64)), int64(rc["Wms"].(float64)), byte(rc["q"].(float64))})
